@@ -25,6 +25,10 @@
 //! submission is `SkipBuf::parts()` / `ReadNBuf::parts_mut()`, every
 //! completion goes through `ReadNBuf::set_init`). `IoSlice::{set_len,skip}`
 //! are covered by the Lean model and theorems only.
+//! The crate private `BufMut::parts()` / `buffer_init()` of `ReadBuf` and of
+//! `LimitedBuf` around it are reached through `AsyncFd::read` on the concrete
+//! types (op `rdp`: did the submission ask for buffer selection, how much may the
+//! kernel store, what does the buffer hold afterwards).
 //!
 //! Oracle (independent of the Lean model; the harness knows every base
 //! buffer's address, capacity and bytes): exposed pairs inside the buffer's own
@@ -1105,6 +1109,7 @@ struct BufsCase {
     started: bool,
     walled: bool,
     capsed: bool,
+    rdped: bool,
     script: Vec<String>,
     pos: usize,
     dynamic: u32,
@@ -1837,6 +1842,122 @@ impl BufsCase {
         out
     }
 
+    /// One `AsyncFd::read` into a pool `ReadBuf` (unassigned, or holding `pre`)
+    /// under zero to two `LimitedBuf`s — the concrete a10 types, no adapters, so
+    /// the crate private `BufMut::parts()` / `buffer_init()` of every layer are
+    /// the ones the operation uses. The kernel has `data` ready. Prints what the
+    /// submission asked for (`select`: the kernel picks a pool buffer and may
+    /// fill all of it; `plain:<len>`), the count returned and the buffer's bytes.
+    fn rdp(&mut self, cap: usize, limits: &[usize], pre: Option<&[u8]>, data: &[u8], op: &str) -> Vec<String> {
+        use std::future::Future;
+        use std::task::Poll;
+        if self.build.pool.is_none() {
+            self.build.pool = PoolCtx::new();
+        }
+        let Some(ctx) = self.build.pool.as_mut() else {
+            return vec!["no-ring".into()];
+        };
+        let Some(rb) = ctx.read_buf(cap, pre) else {
+            return vec!["no-pool-buffer".into()];
+        };
+        let before = rb.len();
+        // what the wrappers report before the read (public methods)
+        enum Fut<'a> {
+            L0(std::pin::Pin<Box<a10::io::Read<'a, ReadBuf>>>),
+            L1(std::pin::Pin<Box<a10::io::Read<'a, LimitedBuf<ReadBuf>>>>),
+            L2(std::pin::Pin<Box<a10::io::Read<'a, LimitedBuf<LimitedBuf<ReadBuf>>>>>),
+        }
+        let PoolCtx { fd, ring, ring_fd, .. } = ctx;
+        let (mut fut, spare_before) = match limits {
+            [] => {
+                let s = BufMut::spare_capacity(&rb);
+                (Fut::L0(Box::pin(fd.read(rb))), s)
+            }
+            [a] => {
+                let b = BufMut::limit(rb, *a);
+                let s = BufMut::spare_capacity(&b);
+                (Fut::L1(Box::pin(fd.read(b))), s)
+            }
+            [a, b] => {
+                let b = BufMut::limit(BufMut::limit(rb, *b), *a);
+                let s = BufMut::spare_capacity(&b);
+                (Fut::L2(Box::pin(fd.read(b))), s)
+            }
+            _ => return vec!["bad-op".into()],
+        };
+        let w = util::waker(0);
+        let mut cx = std::task::Context::from_waker(&w);
+        let mut poll = |fut: &mut Fut<'_>| -> Poll<std::io::Result<ReadBuf>> {
+            match fut {
+                Fut::L0(f) => f.as_mut().poll(&mut cx),
+                Fut::L1(f) => f.as_mut().poll(&mut cx).map(|r| r.map(LimitedBuf::into_inner)),
+                Fut::L2(f) => f.as_mut().poll(&mut cx).map(|r| r.map(|b| b.into_inner().into_inner())),
+            }
+        };
+        let mut out = Vec::new();
+        let mut fails: Vec<(&str, String)> = Vec::new();
+        if poll(&mut fut).is_ready() {
+            return vec!["ready-before-submission".into()];
+        }
+        let _ = ring.poll(Some(std::time::Duration::ZERO));
+        let Some(sqe) = simk::with_ring(*ring_fd, |r, _| r.inflight.first().map(|i| i.sqe)) else {
+            return vec!["no-submission".into()];
+        };
+        let select = sqe.flags & (simk::IOSQE_BUFFER_SELECT as u8) != 0;
+        let allowed = if select { cap } else { sqe.len as usize };
+        out.push(if select { "sqe=select".to_string() } else { format!("sqe=plain:{}", sqe.len) });
+        let k = data.len().min(allowed);
+        let lim = limits.iter().copied().min();
+        // Oracle: a limited buffer never lets the kernel store more than its limit, nor
+        // more than the spare capacity it reported.
+        if let Some(l) = lim {
+            if allowed > l {
+                fails.push(("limit-exceeded/read", format!("read into a ReadBuf limited to {l} bytes lets the kernel store {allowed} bytes ({}; {op})", if select { "buffer select, whole pool buffer" } else { "plain" })));
+            }
+            if allowed > spare_before as usize {
+                fails.push(("spare/read", format!("read into a limited ReadBuf reporting spare_capacity() = {spare_before} lets the kernel store {allowed} bytes ({op})")));
+            }
+        }
+        let mut spec = PostSpec::new(Target::Nth(0), k as i32, 0);
+        if k > 0 || select {
+            spec.data = Some(data[..k].to_vec());
+        }
+        spec.select_buf = select;
+        simk::with_ring(*ring_fd, |r, ev| r.post(&spec, ev));
+        let _ = ring.poll(Some(std::time::Duration::ZERO));
+        match poll(&mut fut) {
+            Poll::Ready(Ok(buf)) => {
+                let got = buf.to_vec();
+                out.push(format!("n={} contents={}", got.len().wrapping_sub(before), hexs(&got)));
+                let mut want = pre.unwrap_or(&[]).to_vec();
+                want.extend_from_slice(&data[..k]);
+                if got != want {
+                    fails.push(("read/contents", format!("after the read the buffer holds {} bytes, expected its {} old bytes followed by the {k} delivered ({op})", got.len(), before)));
+                }
+                if let Some(l) = lim {
+                    if got.len() - before.min(got.len()) > l {
+                        fails.push(("limit-exceeded/appended", format!("{} bytes appended through a buffer limited to {l} ({op})", got.len() - before)));
+                    }
+                }
+            }
+            Poll::Ready(Err(e)) => out.push(format!("err={:?}", e.kind())),
+            Poll::Pending => out.push("pending".into()),
+        }
+        drop(fut);
+        let _ = simk::drain_events();
+        for (sig, what) in fails {
+            self.fail(sig, what);
+        }
+        self.feat(match (limits.len(), pre.is_some()) {
+            (0, false) => "rdp-select",
+            (0, true) => "rdp-assigned",
+            (_, false) => "rdp-limited-unassigned",
+            (_, true) => "rdp-limited-assigned",
+        });
+        self.nontrivial = true;
+        out
+    }
+
     /// A plain `[Vec<u8>; N]` / tuple of *empty* vectors with the given
     /// capacities (up to 8 GiB each, memory never touched): what do
     /// `spare_capacity`, `as_iovecs_mut`, `total_spare_capacity` and
@@ -2038,6 +2159,45 @@ impl Case for BufsCase {
             }
             return Some(self.gen_dynamic(rng));
         }
+        if !self.rdped {
+            self.rdped = true;
+            if rng.chance(1, 12) {
+                let cap = *rng.pick(&[1u64, 2, 7, 8, 16, 64, 100, 256]);
+                let nl = rng.below(3);
+                let limits: Vec<String> = (0..nl)
+                    .map(|_| {
+                        (match rng.below(6) {
+                            0 => 0,
+                            1 => cap,
+                            2 => cap + rng.range(1, 5),
+                            3 => u64::MAX - rng.below(2),
+                            _ => rng.below(cap + 1),
+                        })
+                        .to_string()
+                    })
+                    .collect();
+                let pre = if rng.chance(1, 2) {
+                    "none".to_string()
+                } else {
+                    let n = rng.below(cap + 1).min(40) as usize;
+                    let d: Vec<u8> = (0..n).map(|_| rng.range(1, 0xdf) as u8).collect();
+                    hexs(&d)
+                };
+                let n = match rng.below(5) {
+                    0 => 0,
+                    1 => cap,
+                    2 => cap + rng.range(1, 9),
+                    _ => rng.below(cap + 2),
+                }
+                .min(300) as usize;
+                let d: Vec<u8> = (0..n).map(|_| rng.range(1, 0xdf) as u8).collect();
+                return Some(format!(
+                    "bufs rdp {cap} {} {pre} {}",
+                    if limits.is_empty() { ".".into() } else { limits.join(",") },
+                    hexs(&d)
+                ));
+            }
+        }
         if !self.capsed {
             self.capsed = true;
             if rng.chance(1, 20) {
@@ -2136,6 +2296,20 @@ impl Case for BufsCase {
                 }
                 _ => vec!["bad-op".into()],
             },
+            ["bufs", "rdp", cap, limits, pre, data] => {
+                match (dec_usize(cap), parse_list(limits, dec_usize), if *pre == "none" { Some(None) } else { unhex(pre).map(Some) }, unhex(data)) {
+                    (Some(cap), Some(limits), Some(pre), Some(data))
+                        if cap >= 1
+                            && cap <= MAX_POOL_BUF
+                            && limits.len() <= 2
+                            && pre.as_ref().is_none_or(|p| p.len() <= cap)
+                            && data.len() <= 2 * MAX_POOL_BUF =>
+                    {
+                        self.rdp(cap, &limits, pre.as_deref(), &data, op)
+                    }
+                    _ => vec!["bad-op".into()],
+                }
+            }
             ["bufs", "wall", ks] => match parse_list(ks, dec_usize) {
                 Some(ks) => self.wall(&ks, op),
                 None => vec!["bad-op".into()],
@@ -2303,6 +2477,7 @@ impl Comp for BufsComp {
             started: false,
             walled: false,
             capsed: false,
+            rdped: false,
             script: Vec::new(),
             pos: 0,
             dynamic: 0,
